@@ -43,6 +43,10 @@ def gen_feat(rng):
     if rng.random() < 0.4:
         attrs.append(["Parent", sorted(set(rng.choice(["p1", "p2", "a", "b"]) for _ in range(rng.choice([1, 1, 2]))))])
     s = rng.choice([1, 1, 1, 20])
+    if rng.random() < 0.12:
+        # '.' coordinates (start and end undefined): two such features agree on these columns like any others
+        return imp.mkfeat(seqid=rng.choice(["chr1", "chr1", "chr2"]), source=rng.choice(["s1", "s1", "s2"]), type_=rng.choice(["gene", "exon"]),
+                          s=None, e=None if rng.random() < 0.7 else 30, score=".", strand=rng.choice(["+", "+", "-"]), frame=".", attrs=attrs)
     return imp.mkfeat(seqid=rng.choice(["chr1", "chr1", "chr2"]), source=rng.choice(["s1", "s1", "s2", "s3"]),
                       type_=rng.choice(["gene", "gene", "exon"]), s=s, e=s + rng.choice([9, 9, 10]),
                       score=rng.choice([".", ".", "5"]), strand=rng.choice(["+", "+", "-"]), frame=".", attrs=attrs)
@@ -137,7 +141,9 @@ def valid_case(c):
                 return False
             if any(len(vs) != 1 for k, vs in f["attrs"] if k in ("ID", "gene_id", "transcript_id")):
                 return False
-            if f["s"] is None or f["e"] is None or f["s"] < 1 or f["e"] < f["s"]:
+            if f["s"] is not None and f["e"] is not None and (f["s"] < 1 or f["e"] < f["s"]):
+                return False
+            if f["s"] is not None and f["e"] is None:
                 return False
             if not all(f[k] for k in ("seqid", "source", "type", "strand", "score", "frame")):
                 return False
